@@ -1,9 +1,313 @@
-//! C06 end-to-end half (mock cluster): frames received per logical request.
+//! C06 end-to-end half (mock cluster): the frames a logical request really produces.
+//!
+//! The mock answers each attempt with the next scripted failure; the log shows, per attempt, the
+//! node, the consistency on the wire and the order. Oracles: (safety, independent of any policy)
+//! a non-idempotent request produces no frame after a failure that does not prove non-application;
+//! (fidelity) the number of frames, each frame's consistency and the same-node / other-node choice
+//! are exactly what the configured policy decided when fed the same failures.
 use super::Ctx;
-use crate::runner::Report;
+use super::c06::{CLS, Fail, Pol, make_policy, proves_not_applied, to_error};
+use crate::e2e::*;
+use crate::mock::*;
+use crate::runner::*;
+use crate::wire::request::*;
+use crate::wire::response::*;
+use crate::{vassert, vassert_eq};
+use proptest::prelude::*;
+use scylla::client::PoolSize;
+use scylla::policies::retry::RetryDecision;
+use scylla::statement::batch::Batch;
+use scylla::statement::unprepared::Statement;
+use scylla::verif;
+use serde::{Deserialize, Serialize};
 use serde_json::Value;
+use std::cell::RefCell;
+use std::collections::VecDeque;
+use std::num::NonZeroUsize;
+use std::sync::{Arc, Mutex};
+use std::time::Duration;
 
-pub fn run(_ctx: &Ctx, _rep: &mut Report) {}
-pub fn replay(_rep: &mut Report, _check: &str, _case: &Value) -> bool {
-    false
+#[derive(Debug, Clone, Copy, PartialEq, Eq, Serialize, Deserialize)]
+pub enum Kind {
+    Query,
+    Execute,
+    Batch,
+}
+
+#[derive(Debug, Clone, Serialize, Deserialize)]
+pub struct Case {
+    pub policy: Pol,
+    pub idempotent: bool,
+    pub kind: Kind,
+    pub initial_cl: u8,
+    /// answer to the 1st, 2nd, ... frame of the request; afterwards the request succeeds
+    pub failures: Vec<Fail>,
+}
+
+const NODES: usize = 3;
+const D: Duration = Duration::from_secs(20);
+
+fn cl_code(i: u8) -> u16 {
+    [0u16, 1, 2, 3, 4, 5, 6, 7, 10, 8, 9][i as usize % 11]
+}
+fn consistency_code(c: scylla::statement::Consistency) -> u16 {
+    cl_code(CLS.iter().position(|x| *x == c).unwrap_or(0) as u8)
+}
+fn wt_name(i: u8) -> &'static str {
+    ["SIMPLE", "BATCH", "UNLOGGED_BATCH", "COUNTER", "BATCH_LOG", "CAS", "VIEW", "CDC", "WEIRD"][i as usize % 9]
+}
+
+/// The wire form of a failure (None: close the connection instead of answering).
+fn wire(f: &Fail) -> Option<RespBody> {
+    let e = |code: i32, extra: ErrExtra| Some(RespBody::Error { code, msg: "reason".into(), extra });
+    match f {
+        Fail::Unavailable { cl, required, alive } => e(0x1000, ErrExtra::Unavailable { cl: cl_code(*cl), required: *required, alive: *alive }),
+        Fail::ReadTimeout { cl, received, required, data_present } => e(0x1200, ErrExtra::ReadTimeout { cl: cl_code(*cl), received: *received, blockfor: *required, data_present: *data_present as u8 }),
+        Fail::WriteTimeout { cl, received, required, write_type } => e(0x1100, ErrExtra::WriteTimeout { cl: cl_code(*cl), received: *received, blockfor: *required, write_type: wt_name(*write_type).into() }),
+        Fail::ReadFailure { cl, received, required, numfailures, data_present } => {
+            e(0x1300, ErrExtra::ReadFailure { cl: cl_code(*cl), received: *received, blockfor: *required, numfailures: *numfailures, data_present: *data_present as u8 })
+        }
+        Fail::WriteFailure { cl, received, required, numfailures, write_type } => {
+            e(0x1500, ErrExtra::WriteFailure { cl: cl_code(*cl), received: *received, blockfor: *required, numfailures: *numfailures, write_type: wt_name(*write_type).into() })
+        }
+        Fail::Db(i) => e([0x2000, 0x2200, 0x0100, 0x2100, 0x2300, 0x1001, 0x1002, 0x1003, 0x0000, 0x000A][*i as usize % 10], ErrExtra::None),
+        Fail::AlreadyExists => e(0x2400, ErrExtra::AlreadyExists { ks: "ks".into(), table: "t".into() }),
+        Fail::FunctionFailure => e(0x1400, ErrExtra::FunctionFailure { ks: "ks".into(), function: "f".into(), args: vec!["int".into()] }),
+        Fail::BrokenConnection(_) => None,
+        _ => unreachable!("not generated for the wire"),
+    }
+}
+
+#[derive(Debug, Clone)]
+struct Seen {
+    node: usize,
+    consistency: u16,
+}
+
+struct Script {
+    queue: Mutex<VecDeque<Fail>>,
+    seen: Mutex<Vec<Seen>>,
+    closes: Mutex<usize>,
+}
+
+impl Script {
+    fn answer(&self, ctx: &ReqCtx, consistency: u16) -> Action {
+        self.seen.lock().unwrap().push(Seen { node: ctx.node, consistency });
+        match self.queue.lock().unwrap().pop_front() {
+            None => Action::Default,
+            Some(f) => match wire(&f) {
+                Some(body) => Action::Reply(body),
+                None => {
+                    *self.closes.lock().unwrap() += 1;
+                    Action::Close { rst: matches!(f, Fail::BrokenConnection(k) if k % 2 == 1) }
+                }
+            },
+        }
+    }
+}
+
+impl crate::e2e::Script for Script {
+    fn on_statement(&self, ctx: &ReqCtx, _frame: &ReqFrame, params: &QParams, _is_execute: bool) -> Action {
+        self.answer(ctx, params.consistency)
+    }
+    fn on_batch(&self, ctx: &ReqCtx, frame: &ReqFrame) -> Action {
+        let c = match &frame.body {
+            ReqBody::Batch { consistency, .. } => *consistency,
+            _ => 0,
+        };
+        self.answer(ctx, c)
+    }
+}
+
+thread_local! {
+    static ENV: RefCell<Option<Env>> = const { RefCell::new(None) };
+    static PREV_CLOSED: std::cell::Cell<bool> = const { std::cell::Cell::new(false) };
+}
+
+pub fn oracle(c: &Case) -> Verdict {
+    ENV.with(|cell| {
+        let mut slot = cell.borrow_mut();
+        if slot.is_none() {
+            let spec = EnvSpec {
+                nodes: simple_nodes(NODES, None, false),
+                configure: Box::new(|b| b.pool_size(PoolSize::PerHost(NonZeroUsize::new(1).unwrap()))),
+                ..Default::default()
+            };
+            *slot = Some(build_env(&spec, hash_of(&format!("{:?}", std::thread::current().id()))).map_err(|m| bad("harness_env", m))?);
+        }
+        let env = slot.as_ref().unwrap();
+        let r = run_case(env, c);
+        if matches!(&r, Err((s, _)) if s.starts_with("harness")) {
+            *slot = None;
+        }
+        r
+    })
+}
+
+fn run_case(env: &Env, c: &Case) -> Verdict {
+    let marker = new_marker();
+    let script = Arc::new(Script { queue: Mutex::new(c.failures.iter().cloned().collect()), seen: Mutex::new(vec![]), closes: Mutex::new(0) });
+    env.registry.register(&marker, script.clone());
+    let session = Arc::clone(&env.session);
+    let policy: Arc<dyn scylla::policies::retry::RetryPolicy> = Arc::from(make_policy(c.policy));
+    let cl0 = CLS[c.initial_cl as usize % CLS.len()];
+    let text = format!("INSERT INTO ks.t (a) VALUES (1) {marker}");
+    let outcome = env.rt.block_on(async {
+        // every node must be reachable, or plans are shorter than the model assumes
+        let ok = wait_until(D, || (0..NODES).all(|n| !env.mock.live_conns(n).is_empty()) && (0..NODES).map(|n| env.mock.live_conns(n).len()).sum::<usize>() > NODES).await;
+        if !ok {
+            return Err("nodes did not come back".to_string());
+        }
+        if PREV_CLOSED.with(|p| p.replace(false)) {
+            // let the pools put the fresh connections into service
+            tokio::time::sleep(Duration::from_millis(30)).await;
+        }
+        let fut = async {
+            match c.kind {
+                Kind::Query => {
+                    let mut s = Statement::new(text.clone());
+                    s.set_is_idempotent(c.idempotent);
+                    s.set_consistency(cl0);
+                    s.set_retry_policy(Some(policy.clone()));
+                    session.query_unpaged(s, ()).await.map(|_| ()).map_err(|e| e.to_string())
+                }
+                Kind::Execute => {
+                    let mut p = session.prepare(text.clone()).await.map_err(|e| format!("PREPARE:{e}"))?;
+                    p.set_is_idempotent(c.idempotent);
+                    p.set_consistency(cl0);
+                    p.set_retry_policy(Some(policy.clone()));
+                    session.execute_unpaged(&p, ()).await.map(|_| ()).map_err(|e| e.to_string())
+                }
+                Kind::Batch => {
+                    let mut b = Batch::default();
+                    b.append_statement(Statement::new(text.clone()));
+                    b.set_is_idempotent(c.idempotent);
+                    b.set_consistency(cl0);
+                    b.set_retry_policy(Some(policy.clone()));
+                    session.batch(&b, ((),)).await.map(|_| ()).map_err(|e| e.to_string())
+                }
+            }
+        };
+        tokio::time::timeout(D, fut).await.map_err(|_| format!("request did not complete within {D:?}"))
+    });
+    env.registry.unregister(&marker);
+    let result = outcome.map_err(|e| bad("harness_e2e", e))?;
+    if let Err(e) = &result {
+        if e.starts_with("PREPARE:") {
+            return Err(bad("harness_e2e", e.clone()));
+        }
+    }
+    let seen = script.seen.lock().unwrap().clone();
+    vassert!(!seen.is_empty(), "no_frame", "the request produced no frame at all; result {result:?}");
+
+    // (safety) independent of the policy
+    if !c.idempotent {
+        for (k, f) in c.failures.iter().enumerate() {
+            if k + 1 < seen.len() && !proves_not_applied(f) {
+                return Err(bad(
+                    "resent_after_possible_application",
+                    format!("non-idempotent request: attempt {k} on node {} failed with {f:?} (it may have been applied) and another frame followed on node {}", seen[k].node, seen[k + 1].node),
+                ));
+            }
+        }
+    }
+
+    // (fidelity) replay the same failures through the policy
+    let mut sess = policy.new_session();
+    let mut current = cl0;
+    let mut expect: Vec<(Option<bool>, u16)> = vec![(None, consistency_code(cl0))]; // (same node as previous?, consistency)
+    let mut tried_nodes = 1usize;
+    let mut expect_ok = true;
+    let mut stopped_by_policy = false;
+    for f in &c.failures {
+        let err = to_error(f);
+        let d = sess.decide_should_retry(verif::request_info(&err, c.idempotent, current));
+        match d {
+            RetryDecision::RetrySameTarget(new_cl) => {
+                current = new_cl.unwrap_or(current);
+                // a closed connection leaves nothing to retry on at that node (pool of one): the driver moves on
+                expect.push((if matches!(f, Fail::BrokenConnection(_)) { None } else { Some(true) }, consistency_code(current)));
+            }
+            RetryDecision::RetryNextTarget(new_cl) => {
+                current = new_cl.unwrap_or(current);
+                if tried_nodes >= NODES {
+                    expect_ok = false;
+                    break;
+                }
+                tried_nodes += 1;
+                expect.push((Some(false), consistency_code(current)));
+            }
+            RetryDecision::IgnoreWriteError => {
+                stopped_by_policy = true;
+                break;
+            }
+            _ => {
+                expect_ok = false;
+                stopped_by_policy = true;
+                break;
+            }
+        }
+    }
+    let _ = stopped_by_policy;
+    vassert_eq!(seen.len(), expect.len(), "frame_count", "frames on the wire vs 1 + retries decided by {:?} for failures {:?} (idempotent={}); nodes {:?}", c.policy, c.failures, c.idempotent, seen.iter().map(|s| s.node).collect::<Vec<_>>());
+    for (k, (s, (same, cons))) in seen.iter().zip(&expect).enumerate() {
+        vassert_eq!(s.consistency, *cons, "retry_consistency", "attempt {k}: consistency on the wire vs decided");
+        match same {
+            Some(true) => vassert_eq!(s.node, seen[k - 1].node, "retry_same_target_moved", "attempt {k} was decided as a same-target retry"),
+            Some(false) => vassert!(!seen[..k].iter().any(|p| p.node == s.node), "retry_next_target_repeated_node", "attempt {k} was decided as next-target but went to node {} already tried ({:?})", s.node, seen.iter().map(|s| s.node).collect::<Vec<_>>()),
+            None => {}
+        }
+    }
+    vassert_eq!(result.is_ok(), expect_ok, "final_result", "request result {result:?} after failures {:?} under {:?}", c.failures, c.policy);
+    let closes = *script.closes.lock().unwrap();
+    if closes > 0 {
+        PREV_CLOSED.with(|p| p.set(true));
+    }
+    Ok(CaseInfo::new(seen.len() >= 2 || (!c.idempotent && !proves_not_applied(&c.failures[0])))
+        .class(format!("{:?}", c.policy))
+        .class(format!("{:?}", c.kind))
+        .class_if(!c.idempotent, "non_idempotent")
+        .class_if(closes > 0, "connection_closed")
+        .class(format!("frames{}", seen.len().min(5))))
+}
+
+fn wire_fail() -> BoxedStrategy<Fail> {
+    let n = prop_oneof![Just(0i32), Just(1), Just(2), Just(3), 0i32..6];
+    prop_oneof![
+        3 => (0u8..11, n.clone(), n.clone()).prop_map(|(cl, required, alive)| Fail::Unavailable { cl, required, alive }),
+        3 => (0u8..11, n.clone(), n.clone(), any::<bool>()).prop_map(|(cl, received, required, data_present)| Fail::ReadTimeout { cl, received, required, data_present }),
+        3 => (0u8..11, n.clone(), n.clone(), 0u8..9).prop_map(|(cl, received, required, write_type)| Fail::WriteTimeout { cl, received, required, write_type }),
+        1 => (0u8..11, n.clone(), n.clone(), n.clone(), any::<bool>()).prop_map(|(cl, received, required, numfailures, data_present)| Fail::ReadFailure { cl, received, required, numfailures, data_present }),
+        1 => (0u8..11, n.clone(), n.clone(), n.clone(), 0u8..9).prop_map(|(cl, received, required, numfailures, write_type)| Fail::WriteFailure { cl, received, required, numfailures, write_type }),
+        5 => (0u8..10).prop_map(Fail::Db),
+        1 => Just(Fail::AlreadyExists),
+        1 => Just(Fail::FunctionFailure),
+        2 => (0u8..5).prop_map(Fail::BrokenConnection),
+    ]
+    .boxed()
+}
+
+pub fn case() -> BoxedStrategy<Case> {
+    (
+        prop_oneof![2 => Just(Pol::Default), 2 => Just(Pol::Downgrading), 1 => Just(Pol::Fallthrough)],
+        any::<bool>(),
+        prop_oneof![Just(Kind::Query), Just(Kind::Execute), Just(Kind::Batch)],
+        0u8..11,
+        proptest::collection::vec(wire_fail(), 1..6),
+    )
+        .prop_map(|(policy, idempotent, kind, initial_cl, failures)| Case { policy, idempotent, kind, initial_cl, failures })
+        .boxed()
+}
+
+pub fn run(ctx: &Ctx, rep: &mut Report) {
+    rep.notes.push("wire: a 3-node mock (one connection per node) answers the k-th frame of a request with the k-th scripted failure (error frames of every retry-relevant kind, or closing the connection); oracle on the frames received: no frame after a may-have-applied failure of a non-idempotent request; frame count, per-frame consistency and same-node / new-node choice equal the policy's decisions".into());
+    run_prop_par(rep, "wire", ctx.tier.pick(12_000, 600_000), ncpu(), case, oracle);
+}
+
+pub fn replay(rep: &mut Report, check: &str, case: &Value) -> bool {
+    if check != "wire" {
+        return false;
+    }
+    replay_case::<Case, _>(rep, "wire", case, oracle);
+    true
 }
